@@ -17,6 +17,9 @@ PROPS_PART = {
         verus=[dict(unit='catalog', which='all')],
         kani=[],
         cex={},
+        native=[dict(bin='bnd_catalog', when='quick',
+                     bound='all insert/remove sequences of length <= 4 over 6 names (incl. root, nested, case variant) x 2 classes',
+                     what='public API of the real HashMapTreeCatalog vs a reference map after every step: get (exact), lookup (longest suffix), iter, values returned by insert/remove')],
         unverified=['HashMapTreeCatalog::iter / Node::iter / node::Iter state machine ("iteration yields exactly the current entries"): iterator '
                     'adaptor chains are outside Verus, and Kani cannot run HashMap::new() (RandomState seeds from the OS; the private std '
                     'key function cannot be stubbed with Kani 0.68)',
